@@ -292,8 +292,10 @@ class World(object):
         if self.svc.snapshot() != self.snap:
             viol.append(("service-state-changed", "%r: %r" % (meta, self.svc.snapshot())))
             self.snap = self.svc.snapshot()
+        self.last_replied = False
         if kind == R.REQUEST:
             mine_resp = [m for m in resp if m[1] == seq and type(m[1]) is type(seq)]
+            self.last_replied = any(m[0] == R.REPLY for m in mine_resp)
             if not self.ended and len(mine_resp) != 1:
                 viol.append(("request-got-%d-responses" % len(mine_resp), "%r" % (meta,)))
             for m in mine_resp:
@@ -476,6 +478,60 @@ def expand(hist, ev):
 THOROUGH = [False]
 
 
+def _meta_key(meta):
+    return tuple(sorted((k, repr(v)) for k, v in meta.items() if k != "denied"))
+
+
+def pair_row(base, i):
+    """hidden-state pass: the BFS merges states by an abstraction of the victim's tables, so a message that changes
+    nothing visible is never followed up.  Here every request m1 that was ANSWERED is followed by every message m2 that
+    shares its name or its target id (the plausible keys of any memo inside the victim); the usual monitors judge m2."""
+    env.silence_unraisable()
+    thorough = THOROUGH[0]
+    w = World()
+    seqbase = 5000
+    path = []
+    for k in list(base) + [i]:
+        msgs, seqbase = alphabet(w, seqbase, thorough)
+        m = msgs[k]
+        path.append(m[3])
+        w.send(m)
+    m1 = path[-1]
+    replied = w.last_replied
+    msgs2, _ = alphabet(w, seqbase, thorough)
+    ended = w.ended
+    w.close()
+    if not replied or ended or m1.get("label") != 3:
+        return 0, []
+    related = [j for j, mm in enumerate(msgs2) if mm[0] == R.REQUEST and j != i and (
+        (m1.get("name") is not None and mm[3].get("name") == m1.get("name")) or
+        (m1.get("idrole") is not None and mm[3].get("idrole") == m1.get("idrole") and mm[3].get("label") == 3))]
+    viol = []
+    for j in related:
+        key, n2, v = run_history(list(base) + [i, j], thorough)
+        for sig, text in v:
+            viol.append(("after-an-answered-request:" + sig, text, list(base) + [i, j]))
+        if len(viol) > 6:
+            break
+    return len(related), viol
+
+
+def pair_bases(thorough):
+    """base histories: right after getroot, and after an object was lent (callattr ok)"""
+    w = World()
+    msgs, sb = alphabet(w, 5000, thorough)
+    w.send(msgs[0])
+    msgs, sb = alphabet(w, sb, thorough)
+    idx = [k for k, mm in enumerate(msgs) if mm[3].get("h") == "callattr" and mm[3].get("name") == "ok" and mm[3].get("label") == 3
+           and str(mm[3].get("idrole", "")).startswith("ref:getroot") and mm[3].get("strategy") is None]
+    n0 = len(msgs)
+    w.send(msgs[idx[0]])
+    msgs, sb = alphabet(w, sb, thorough)
+    n1 = len(msgs)
+    w.close()
+    return [((0,), n0), ((0, idx[0]), n1)]
+
+
 def expand_state(hist):
     """all transitions out of one state in one go (rebuild once per transition, same worker)"""
     env.silence_unraisable()
@@ -535,6 +591,17 @@ def main(tier, replay_obj=None):
         frontier = nxt
         if vhist:
             break
+    if not vhist:
+        npairs = 0
+        for base, n in pair_bases(THOROUGH[0]):
+            outs = runner.pmap(pair_row, [(base, i) for i in range(n)], chunksize=4)
+            for cnt, viol in outs:
+                npairs += cnt
+                for sig, text, h in viol:
+                    if sig not in vhist:
+                        vhist[sig] = (text, h)
+        res.parts["answered-request-then-related-message"] = {"pairs": npairs}
+        trans += npairs
     res.states = len(seen)
     res.transitions = trans
     res.evaluations = trans
